@@ -1263,3 +1263,94 @@ Proof. apply em_history_monotone. exact ex_inv. Qed.
 
 Print Assumptions likelihood_monotone.
 Print Assumptions em_history_monotone.
+
+(* ------------------------------------------------------------------------------------ *)
+(* One unfixed step establishes sub-normalisation: monotone from iterate 1 for any start   *)
+(* ------------------------------------------------------------------------------------ *)
+
+(* cmp_ok without the bound on the observed mass *)
+Definition cmp_ok0 (sc : list srow) (k : nat) (c : cmp) : Prop :=
+  NoDup (map lv_val c) /\ ~ In (-1)%Z (map lv_val c) /\
+  (forall l, In l c -> lv_fixm l = false /\ lv_fixu l = false /\ 0 < rd (lv_m l) /\ 0 < rd (lv_u l)) /\
+  (forall r, In r sc -> gi k r = (-1)%Z \/ In (gi k r) (map lv_val c)).
+
+Lemma mass_m_upd0 fl sc i c : sc_ok sc -> cmp_ok0 sc i c -> fix_m fl = false ->
+  mass_m i sc (updF fl sc i c) <= 1.
+Proof.
+  intros Hsc (Hnd & Hn & Hl & Hrows) Fx.
+  unfold mass_m, updF. rewrite sumQ_map. cbn [lv_val lv_m upd_level].
+  set (C := sumQ mterm (nonnull i sc)).
+  assert (E : sumQ (fun l => if observed i (lv_val l) sc
+                             then rd (new_m fl (props_tbl i sc) l) else 0) c == C / C).
+  { transitivity (sumQ (fun l => sumQ mterm (rows_at i (lv_val l) sc) / C) c).
+    - apply sumQ_ext. intros l Hin. destruct (observed i (lv_val l) sc) eqn:O.
+      + apply new_m_observed; auto; [apply (Hl l Hin)|].
+        intros E. apply Hn. rewrite <- E. apply in_map. exact Hin.
+      + rewrite (rows_at_nil _ _ _ O). sq. unfold Qdiv. ring.
+    - unfold Qdiv. rewrite sumQ_scale_r.
+      rewrite <- (sumQ_map lv_val (fun v => sumQ mterm (rows_at i v sc)) c).
+      rewrite group_vals by assumption. reflexivity. }
+  rewrite E. apply Qdiv_self_le1.
+Qed.
+Lemma mass_u_upd0 fl sc i c : sc_ok sc -> cmp_ok0 sc i c -> fix_u fl = false ->
+  mass_u i sc (updF fl sc i c) <= 1.
+Proof.
+  intros Hsc (Hnd & Hn & Hl & Hrows) Fx.
+  unfold mass_u, updF. rewrite sumQ_map. cbn [lv_val lv_u upd_level].
+  set (C := sumQ uterm (nonnull i sc)).
+  assert (E : sumQ (fun l => if observed i (lv_val l) sc
+                             then rd (new_u fl (props_tbl i sc) l) else 0) c == C / C).
+  { transitivity (sumQ (fun l => sumQ uterm (rows_at i (lv_val l) sc) / C) c).
+    - apply sumQ_ext. intros l Hin. destruct (observed i (lv_val l) sc) eqn:O.
+      + apply new_u_observed; auto; [apply (Hl l Hin)|].
+        intros E. apply Hn. rewrite <- E. apply in_map. exact Hin.
+      + rewrite (rows_at_nil _ _ _ O). sq. unfold Qdiv. ring.
+    - unfold Qdiv. rewrite sumQ_scale_r.
+      rewrite <- (sumQ_map lv_val (fun v => sumQ uterm (rows_at i v sc)) c).
+      rewrite group_vals by assumption. reflexivity. }
+  rewrite E. apply Qdiv_self_le1.
+Qed.
+
+(* every hypothesis of likelihood_monotone except sub-normalisation *)
+Definition em_pre (p : params) (data : list drow) : Prop :=
+  no_tf p /\ no_level_fix p /\ cmps_wf p /\ levels_pos p /\ lam_ok p /\ data_ok p data.
+
+Theorem one_step_subnormal (fl : flags) (p : params) (data : list drow) :
+  em_pre p data -> fix_m fl = false -> fix_u fl = false -> em_inv (em_step fl p data) data.
+Proof.
+  intros (Htf & Hfix & Hwf & Hpos & Hl & [Hne Hd]) Fm Fu.
+  unfold em_step. set (sc := estep p data).
+  assert (Hsc : sc_ok sc) by (apply estep_sc_ok; auto; intros r Hr; apply (Hd r Hr)).
+  assert (Hne' : sc <> []) by (apply estep_nonempty; exact Hne).
+  assert (Hcs : forall i c, nth_error (cmps p) i = Some c -> cmp_ok0 sc i c).
+  { intros i c Hi. pose proof (nth_error_In _ _ Hi) as Hc. destruct (Hwf c Hc) as [Hnd Hn].
+    split; [exact Hnd|]. split; [exact Hn|]. split.
+    { intros l Hin. destruct (Hfix c l Hc Hin). destruct (Hpos c l Hc Hin). tauto. }
+    intros s Hs. unfold sc, estep in Hs. apply in_map_iff in Hs as [r [<- Hr]].
+    unfold gi. cbn [sg fst]. apply (Hd r Hr). exact Hi. }
+  split; [|split; [|split; [|split; [|split; [|split]]]]].
+  - intros c' l' Hc' Hl'. apply mstep_In in Hc' as (i & c & _ & Hc & ->).
+    unfold updF in Hl'. apply in_map_iff in Hl' as [l [<- Hin]]. cbn. apply (Htf c l Hc Hin).
+  - intros c' l' Hc' Hl'. apply mstep_In in Hc' as (i & c & _ & Hc & ->).
+    unfold updF in Hl'. apply in_map_iff in Hl' as [l [<- Hin]]. cbn. apply (Hfix c l Hc Hin).
+  - intros c' Hc'. apply mstep_In in Hc' as (i & c & _ & Hc & ->).
+    rewrite updF_vals. apply (Hwf c Hc).
+  - intros c' l' Hc' Hl'. apply mstep_In in Hc' as (i & c & _ & Hc & ->).
+    unfold updF in Hl'. apply in_map_iff in Hl' as [l [<- Hin]]. cbn [lv_m lv_u upd_level].
+    destruct (Hpos c l Hc Hin). split; [apply new_m_pos|apply new_u_pos]; assumption.
+  - unfold lam_ok. rewrite mstep_lam. apply lam_next_ok; assumption.
+  - split; [exact Hne|]. intros r Hr. split; [apply (Hd r Hr)|].
+    intros i c' Hi. apply mstep_nth in Hi as (c & Hc & ->). rewrite updF_vals.
+    apply (Hd r Hr). exact Hc.
+  - intros i c' Hi. apply mstep_nth in Hi as (c & Hc & ->).
+    rewrite (mass_estep_m i p), (mass_estep_u i p). fold sc.
+    split; [apply mass_m_upd0|apply mass_u_upd0]; auto.
+Qed.
+
+(* for ANY positive, well-formed start the likelihood is monotone from the first iterate on *)
+Theorem monotone_from_iterate_1 (fl : flags) (conv : Q) (fuel : nat) (p : params) (data : list drow) :
+  em_pre p data -> fix_m fl = false -> fix_u fl = false ->
+  mono_chain data (em_history fl conv fuel (em_step fl p data) data).
+Proof.
+  intros Hpre Fm Fu. apply em_history_monotone. apply one_step_subnormal; assumption.
+Qed.
